@@ -223,11 +223,23 @@ SHADOW = [
     ('the condition of a when block is written outside the block: a variable the block defines does not reach it (file level)', 'let v = big\nrule r {\n  when %v >= 100 {\n    let v = small\n    %v <= 50\n  }\n}\n', 'rule r {\n  when big >= 100 {\n    small <= 50\n  }\n}\n'),
     ('the condition of a when block is written outside the block: a variable the block defines does not reach it (rule level)', 'rule r {\n  let v = big\n  when %v >= 100 {\n    let v = small\n    %v <= 50\n  }\n  %v >= 100\n}\n', 'rule r {\n  when big >= 100 {\n    small <= 50\n  }\n  big >= 100\n}\n'),
     ('the condition of a when block inside a value block sees the value block\'s variable, not the when block\'s', 'rule r {\n  o {\n    let v = b\n    when %v >= 100 {\n      let v = a\n      %v <= 50\n    }\n  }\n}\n', 'rule r {\n  o {\n    when b >= 100 {\n      a <= 50\n    }\n  }\n}\n'),
+    ('a variable used as a key in the middle of a query, followed by [*]: the list under that key is iterated', 'let which = "a"\nrule r {\n  g.%which[*] <= 50\n}\n', 'rule r {\n  g.a[*] <= 50\n}\n'),
+    ('a variable used as a key in the middle of a query, followed by [*] and a key', 'rule r {\n  let which = "b"\n  h.%which[*].p >= 100\n}\n', 'rule r {\n  h.b[*].p >= 100\n}\n'),
+    ('the tail of a variable-headed query sees the variables of the block it is written in (filter)', 'let hs = h.*\nlet lim = 5000\nrule r {\n  let lim = 50\n  %hs[*][ p <= %lim ] !empty\n  %hs[*][ p >= %lim ] !empty\n}\n',
+     'rule r {\n  h.*[*][ p <= 50 ] !empty\n  h.*[*][ p >= 50 ] !empty\n}\n'),
+    ('the tail of a variable-headed query sees the variables of the block it is written in (interpolated key)', 'let top = h\nrule r {\n  let which = "b"\n  %top.%which[*].p >= 100\n}\n', 'rule r {\n  h.b[*].p >= 100\n}\n'),
+    ('the tail of a variable-headed query sees the variables of a when block', 'let top = h\nlet which = "a"\nrule r {\n  when small exists {\n    let which = "b"\n    %top.%which[*].p >= 100\n  }\n}\n',
+     'rule r {\n  when small exists {\n    h.b[*].p >= 100\n  }\n}\n'),
     ('a file-level variable is a query on the root also inside a block', 'let v = small\nrule r {\n  o {\n    %v <= 50\n    a <= 50\n  }\n}\n', 'rule r {\n  small <= 50\n  o {\n    a <= 50\n  }\n}\n'),
     ('a rule-level variable keeps its value inside a filter', 'rule r {\n  let v = small\n  l[ this <= %v ] !empty\n}\n', 'rule r {\n  l[ this <= 10 ] !empty\n}\n'),
     ('a call is its body written at the call site: other names are looked up from there', 'let v = small\nrule f(p) {\n  %v <= 50\n  %p >= 100\n}\nrule r {\n  let v = big\n  f(big)\n}\n', 'rule r {\n  let v = big\n  %v <= 50\n  big >= 100\n}\n'),
 ]
-SHADOW_DOCS = [{'small': s_, 'big': b_, 'o': {'a': a_, 'b': bb_}, 'l': [5, 10, 500]} for (s_, b_, a_, bb_) in
+# the recorded deviation next to them: an index or a filter directly after an interpolated key is applied to the VALUES OF THE VARIABLE
+SHADOW_KNOWN = [
+    ('a variable used as a key, followed by an index', 'let which = "a"\nrule r {\n  g.%which[1] <= 50\n}\n', 'rule r {\n  g.a[1] <= 50\n}\n', 'index-after-interpolated-key'),
+    ('a variable used as a key, followed by a filter', 'let which = "a"\nrule r {\n  h.%which[ p <= 50 ] !empty\n}\n', 'rule r {\n  h.a[ p <= 50 ] !empty\n}\n', 'index-after-interpolated-key'),
+]
+SHADOW_DOCS = [{'small': s_, 'big': b_, 'o': {'a': a_, 'b': bb_}, 'l': [5, 10, 500], 'g': {'a': [s_, a_], 'b': [b_, bb_]}, 'h': {'a': [{'p': s_}, {'p': a_}], 'b': [{'p': b_}, {'p': bb_}]}} for (s_, b_, a_, bb_) in
                [(10, 100, 10, 100), (100, 10, 100, 10), (10, 10, 10, 10), (100, 100, 100, 100), (10, 100, 100, 10), (100, 10, 10, 100)]]
 
 
@@ -235,7 +247,10 @@ def run_shadowing(ctx):
     """directed: every shadowing relation the statement names (block over rule over file, parameter over everything) written out
     by hand with its resolved form, on documents that make each side of every comparison pass and fail"""
     pairs, meta = [], []
-    for lab, a, b in SHADOW:
+    classes = {}
+    for lab, a, b, *cls in [tuple(x) for x in SHADOW] + [tuple(x) for x in SHADOW_KNOWN]:
+        if cls:
+            classes[lab] = cls[0]
         for d in SHADOW_DOCS:
             if 'l[ this <= 10 ]' in b and d['small'] != 10:
                 continue
@@ -248,7 +263,7 @@ def run_shadowing(ctx):
         oa, sa = statuses(outs[i], raw[i])
         ob, sb = statuses(outs[i + 1], raw[i + 1])
         n += 1
-        info = {'class': 'abstraction', 'kind': lab, 'rules': a, 'variant': b, 'data': json.dumps(d)}
+        info = {'class': classes.get(lab, 'abstraction'), 'kind': lab, 'rules': a, 'variant': b, 'data': json.dumps(d)}
         if ob not in ('PASS', 'FAIL', 'SKIP'):
             raise ToolingError('shadowing scenario does not evaluate: %s %s' % (lab, ob))
         if oa != ob:
